@@ -19,6 +19,7 @@ import r_step
 import r_peek
 import r_nan
 import r_winv
+import r_linear
 
 
 def _sets(quick, thorough=None):
@@ -39,14 +40,50 @@ NOT_APPLICABLE = {
            'against the documented formula would be a frozen source fragment (false alarm in waiting).',
     'C06': 'Whether a signal fires exactly under its documented condition compares a branchless boolean/Action expression with a '
            'prose rule per indicator; no machine-readable oracle exists without executing the code.',
-    'C08': 'Constant-input fixed-point behaviour needs the closed-form initial accumulators to be evaluated (symbolically or '
-           'concretely) against next(); symbolic evaluation is another family and exact float constancy is invisible to structure.',
-    'C15': 'Affine equivariance, range preservation, superposition and impulse responses relate numeric outputs of several runs; the '
-           'only structural ingredient (kind<->method wiring) is claimed as S06 under C05/C18.',
     # claimed in DESIGN.md, check not built yet in this commit (moved to `checks` as each is armed):
 }
 
 PROPS = {
+    'C15': dict(
+        rules=[r_linear.rule_L01_c15],
+        feature_sets=_sets(['default'], ['default', 'u16', 'f32']),
+        rules_thorough=[on_build(r_linear.rule_L01_c15, 'u16'), on_build(r_linear.rule_L01_c15, 'f32')],
+        explanation=('(L01) weight-sum typing. The constructor and next() of every type that implements MovingAverage over a single value are '
+                     'interpreted over MIR in the domain "linear form of the stream values whose coefficients depend on the configuration only, '
+                     'with coefficient sum w, plus a stream-free offset c" (w, c rational functions of the length, one run per residue class of the '
+                     'length modulo 2 so that length / 2 is a polynomial; sqrt and friends are uninterpreted symbols; callees are interpreted, the '
+                     'circular buffer is one abstract element plus its capacity). Proved for a kind: on every path of next() every state field keeps '
+                     'the (w, c) the constructor gave it and the returned value has w = 1, c = 0 - so, in exact arithmetic and for every length, the kind '
+                     'is a homogeneous linear filter whose weights sum to one: it reproduces a constant, commutes with a*x + b, satisfies superposition. '
+                     'A violation is a path without stream-dependent branches whose returned (w, c) is decided and differs from (1, 0) at some step of the '
+                     'constant stream. Kinds outside the domain (SMM selection, Vidya and VWMA products of stream values, Conv loop) are listed as undecided.'),
+        not_decided=['that each individual weight is the documented one (impulse response / weight profile) and non-negative (range containment): only the SUM of the weights and linearity are decided',
+                     'floating-point rounding: the argument is over the reals',
+                     'SMM, Vidya, VWMA, Conv and the MA enum dispatch (S06 under C05 decides the wiring): outside the domain, listed as undecided'],
+        assumptions=TRUST,
+        technique='static analysis: abstract interpretation of MIR in an affine-form domain with symbolic coefficient sums (weight-sum typing of linear filters)',
+        level_text=('Linearity and weight sum 1 (constant reproduction, affine equivariance, superposition over the reals) are proved for every length for the '
+                    'moving averages inside the domain; individual weights, non-negativity and rounding are not claimed.'),
+        design_ref='DESIGN.md §11 "Weight-sum typing"',
+    ),
+    'C08': dict(
+        rules=[r_linear.rule_L01_c08],
+        feature_sets=_sets(['default'], ['default', 'u16', 'f32']),
+        rules_thorough=[on_build(r_linear.rule_L01_c08, 'u16'), on_build(r_linear.rule_L01_c08, 'f32')],
+        explanation=('(L01) for every method over a single value whose constructor and next() stay inside the affine-form domain (see C15): the state the '
+                     'constructor builds from its first input v is a fixed point of next(v) - every accumulator is constructed with exactly the coefficient '
+                     'sum and offset one more step of the constant stream gives it (numerator = v * n(n+1)/2, total = -v * n, s_xy = v * s_x, ...) - and the '
+                     'output is the same at every step; hence, in exact arithmetic, extra leading copies of the first element leave state and outputs unchanged. '
+                     'The windowless Integral (length 0) is the documented cumulative exception and is listed as exempt.'),
+        not_decided=['indicators (candle input), selections, dispersion methods and every method with a product of stream values or a stream-dependent branch: outside the domain, listed as undecided',
+                     'exact constancy in floating point / absence of drift: the argument is over the reals',
+                     'which documented seed (price or 0.0) an indicator must give an inner method: not decided'],
+        assumptions=TRUST,
+        technique='static analysis: abstract interpretation of MIR in an affine-form domain with symbolic coefficient sums (constructor state is a fixed point of the constant stream)',
+        level_text=('For the linear single-value methods the closed-form initial accumulators are proved consistent with the step function for every length '
+                    '(over the reals); nothing is claimed for indicators and non-linear methods.'),
+        design_ref='DESIGN.md §11 "Weight-sum typing"',
+    ),
     'C05': dict(
         rules=[r_tables.s06_ma_dispatch, r_step.s07_step_once, r_formula.s07t_true_range_reference,
                lambda ctx: r_mirror.s04_mirror_siblings(ctx, which=('highest_lowest::Highest', 'highest_lowest_index::HighestIndex'))],
